@@ -289,7 +289,7 @@ macro_rules
             · exact hrP
             · intro j nn q hnn hq
               simp only [hcmp, bind_ok]
-              cases ltN key nn (X.head hXne) with
+              cases hltn : ltN key nn (X.head hXne) with
               | false => exact ⟨q, rfl, hq⟩
               | true =>
                 simp only [Bool.not_true, Bool.false_eq_true, if_false]
@@ -304,7 +304,7 @@ macro_rules
                     intro x hx
                     rcases List.mem_append.1 hx with hx | hx
                     · exact hq x hx
-                    · rw [List.mem_singleton.1 hx]; exact hnew nn hnn
+                    · rw [List.mem_singleton.1 hx]; exact hnew nn hnn hltn
           case fin2 =>
             intro q hqP
             refine ⟨_, rfl, hqP, ?_⟩
@@ -319,7 +319,7 @@ theorem iterate_body_inv {σ : Type} (key : Go.Bytes) (n : Int) (hn : ¬ n < 1)
     (g : σ → kademlia.NodeInfoT → σ × List kademlia.NodeInfoT × Bool)
     (P : kademlia.NodeInfoT → Prop) (R : List Go.Bytes → σ → Prop)
     (hstep : ∀ seen st node, R seen st → P node → node.ID ∉ seen →
-      R (node.ID :: seen) (g st node).1 ∧ ∀ x ∈ (g st node).2.1, P x)
+      R (node.ID :: seen) (g st node).1 ∧ ∀ x ∈ (g st node).2.1, ltN key x node = true → P x)
     (nodes : List kademlia.NodeInfoT) (hP : ∀ x ∈ nodes, P x) (st0 : σ) (h0 : R [] st0) :
     kademlia.dhtIterate nodes key n (fun s x => pure (g s x)) st0 = .error .fuel ∨
     ∃ st, kademlia.dhtIterate nodes key n (fun s x => pure (g s x)) st0 = .ok st ∧ ∃ seen, R seen st := by
@@ -394,7 +394,7 @@ theorem dhtIterate_inv {σ : Type} (key : Go.Bytes) (n : Int)
     (g : σ → kademlia.NodeInfoT → σ × List kademlia.NodeInfoT × Bool)
     (P : kademlia.NodeInfoT → Prop) (R : List Go.Bytes → σ → Prop)
     (hstep : ∀ seen st node, R seen st → P node → node.ID ∉ seen →
-      R (node.ID :: seen) (g st node).1 ∧ ∀ x ∈ (g st node).2.1, P x)
+      R (node.ID :: seen) (g st node).1 ∧ ∀ x ∈ (g st node).2.1, ltN key x node = true → P x)
     (nodes : List kademlia.NodeInfoT) (hP : ∀ x ∈ nodes, P x) (st0 : σ) (h0 : R [] st0) :
     kademlia.dhtIterate nodes key n (fun s x => pure (g s x)) st0 = .error .fuel ∨
     (nodes ≠ [] ∧ n < 1 ∧ kademlia.dhtIterate nodes key n (fun s x => pure (g s x)) st0 = .error (.panic "panic")) ∨
